@@ -99,13 +99,22 @@ CLAIMS['C05'] = dict(
          'js_identifiers.rs, locate_sourcemap_reference, formatting impls, ram_bundle.rs, allocation size and wall-clock; stated size assumptions (tables < 2^32-16 entries, strings < usize::MAX/6 bytes).',
     design_ref='DESIGN.md 5 C05')
 
+CLAIMS['C09'] = dict(
+    text='PARTIAL: proof for the machinery rewrite is built from: SourceMapBuilder::add_token re-interns the resolved source / name strings of a token and keeps '
+         'generated position, original position and range flag; add_source_with_id keeps the old-id memo (sources_mapping) in step with the table; set_source_contents '
+         'touches only the given id; into_sourcemap reports exactly the builder state. The loop of rewrite_with_mapping, strip_prefixes and SourceMapHermes::rewrite '
+         '(closure capturing a mutable reference: outside the Verus subset) are covered only by BOUNDED stand-ins (bounded/: rewrite, hermes_rewrite), labelled bounded in evidence.',
+    note=_TB + 'bounded stand-ins enumerate a stated finite space through the public API and are never counted as discharged obligations.',
+    design_ref='DESIGN.md 5 C09')
+
 NOT_APPLICABLE = {p: 'under construction in this session (contract-based check being built; see DESIGN.md decision table)' for p in
-                  ['C09', 'C10', 'C15', 'C17', 'C18', 'C19', 'C20']}
+                  ['C10', 'C15', 'C17', 'C18', 'C19', 'C20']}
 NOT_APPLICABLE['C16'] = ('concurrency (interleavings of threads sharing a SourceView over std Mutex / atomics): Kani has no thread support and Verus needs '
                          'its own permission-typed primitives, so no contract within reach of the installed verifiers expresses or decides it')
 
 # parts of each property that no discharged obligation covers (reported in every evidence file, never counted)
 NOT_COVERED = {
+    'C09': ['rewrite_with_mapping loop, strip_prefixes, find_common_prefix ("~"), load_local_source_contents (filesystem; excluded by the property)', 'SourceMapHermes::rewrite function-map permutation (bounded stand-in only)'],
     'C05': ['dependencies (serde_json, url, bitvec, data-encoding, base64-simd, debugid)', 'sourceview.rs, js_identifiers.rs, detector.rs line scan, Display/Debug impls, ram_bundle.rs',
             'flatten (+ off_col / + off_line overflow, design-phase defect D6), rewrite, adjust_mappings, range bitfield writer (D4), decode_hermes', 'allocation in proportion to the input; wall-clock (only termination is proved)'],
     'C08': ['flatten (token translation, contents, ignore list, nested indexes)', 'agreement lemma lookup vs flatten', 'DecodedMap::lookup_token dispatch (assumed naming)'],
